@@ -723,7 +723,9 @@ find_value (const DBusString *str,
  * FIXME this is sort of busted now with arg matching, but we let
  * you match on up to 10 args for now
  */
-#define MAX_RULE_TOKENS 16
+/* type, sender, interface, member, path or path_namespace, destination,
+ * arg0namespace, arg0..arg63, and some room for repeated eavesdrop keys */
+#define MAX_RULE_TOKENS 80
 
 /* this is slightly too high level to be termed a "token"
  * but let's not be pedantic.
@@ -791,6 +793,21 @@ tokenize_rule (const DBusString *rule_text,
 
     next:
       ++i;
+    }
+
+  /* trailing whitespace is OK, as it is after fewer pairs */
+  while (pos < _dbus_string_get_length (rule_text) &&
+         ISWHITE (_dbus_string_get_byte (rule_text, pos)))
+    ++pos;
+
+  if (pos < _dbus_string_get_length (rule_text))
+    {
+      /* silently ignoring the rest would make the rule match more than
+       * was asked for */
+      dbus_set_error (error, DBUS_ERROR_MATCH_RULE_INVALID,
+                      "Match rule has more than %d key/value pairs",
+                      MAX_RULE_TOKENS);
+      goto out;
     }
 
   retval = TRUE;
